@@ -299,6 +299,7 @@ def gen_case(ctx):
         variant = {"dict": rng.choice(["dict", "dict", "autoconf", "file", "reference"]), "pickle": rng.choice(["pickle", "dill"]), "db": "fit"}[form]
         steps.append({"form": form, "variant": variant})
     c["steps"] = steps
+    c["frozen"] = rng.random() < 0.34           # a fit freezes its model before it is saved
     c["values"] = [(rng.randint(-16, 16) / 8.0).hex() for _ in pool]
     prog["features"] = sorted(feats)
     return c
@@ -940,7 +941,7 @@ def gen_array_case(rng):
         if rng.random() < 0.7:
             entries.append([rng.randrange(1, 4), {"t": "prior", "spec": {"family": "uniform", "lo": (-1.5).hex(), "hi": rng.uniform(0.1, 3).hex()}}])
     share = rng.random() < 0.4
-    return {"kind": "array", "prior": spec, "shape": rng.choice([[2], [3], [2, 2], [1, 3]]), "share": share,
+    return {"kind": "array", "prior": spec, "shape": rng.choice([[2], [3], [2, 2], [1, 3]]), "share": share, "frozen": rng.random() < 0.34,
             "bare": (not share) and rng.random() < 0.25, "entries": entries, "steps": steps()}
 
 
@@ -1023,7 +1024,8 @@ def run(ctx):
                 "falsy values, constants that are not floats (None, str, tuple, list, int, plain instance), 0-2 (rarely 11-12) assertions (simple, "
                 "chained, on arithmetic expressions) x a sequence of 1-3 round trips mixed from dict (model.dict / autoconf to_dict / JSON "
                 "file / from_dict with a reference dict of class paths), pickle (pickle / dill) and database (Fit(model=) commit + fresh "
-                "session); plus af.Array models (heterogeneous entries, shared entries, bare or inside a Collection, 1-2 trips) and unary "
+                "session); about a third of the models are FROZEN (after queries, as a fit does) before the trips: no trip may fail because "
+                "of that, and a second reload must be unfreezable and modifiable (attributes, tuple members); plus af.Array models (heterogeneous entries, shared entries, bare or inside a Collection, 1-2 trips) and unary "
                 "derived parameters; fixed corpus cases first. "
                 "Non-trivial: >= 2 priors and one of {shared prior, nesting, tuple, arithmetic, constant, copy, passing, assertion, "
                 "zero-prior component}. Distinct = distinct (program, decorations, trip sequence). Every trip is one evaluation.")
@@ -1109,6 +1111,8 @@ def run(ctx):
             feats & {"shared", "nested", "tuple", "arith", "const", "new", "with_limits", "passed", "assert", "zeroprior"})
         for f in feats:
             ctx.hist("feature", f)
+        if c.get("frozen"):
+            ctx.hist("feature", "frozen")
         ctx.hist("trips", "+".join(s["form"] for s in c["steps"]))
         if "exc" in r:
             ctx.count_case(c, nontrivial)
@@ -1127,7 +1131,8 @@ def run(ctx):
         oracle_failed = False
         for k, st in enumerate(r["steps"]):
             form = c["steps"][k]["form"]
-            key = {"program": prog, "passed": c["passed"], "dicts": c["dicts"], "asserts": c["asserts"], "steps": c["steps"][:k + 1]}
+            key = {"program": prog, "passed": c["passed"], "dicts": c["dicts"], "asserts": c["asserts"], "steps": c["steps"][:k + 1],
+                   "frozen": bool(c.get("frozen"))}
             ctx.count_case(key, nontrivial, kind=form)
             ctx.oracle["cases"] += 1
             sub = dict(c, steps=c["steps"][:k + 1])
@@ -1139,6 +1144,14 @@ def run(ctx):
                 ctx.failure("oracle", "%s round trip (step %d) raised %s: %s" % (form, k + 1, st["exc"], st.get("msg", "")),
                             sub, classes=classes_for(c, k, clause), impl=st)
                 break
+            ctx.hist("frozen-flag", "%s: %s -> %s" % (form, "frozen" if st.get("frozen_before") else "thawed", "frozen" if st.get("frozen_after") else "thawed"))
+            if c.get("frozen"):
+                th = st.get("thaw") or {}
+                if "exc" in th:
+                    ctx.oracle["failures"] += 1
+                    oracle_failed = True
+                    ctx.failure("oracle", "%s round trip (step %d) [thaw]: the model reloaded from a frozen model cannot be unfrozen and modified: %s: %s"
+                                % (form, k + 1, th["exc"], th.get("msg")), sub, classes=classes_for(c, k, "thaw"), impl=th)
             for clause, msg, where in compare_states(r["states"][k], r["states"][k + 1], form, st):
                 ctx.oracle["failures"] += 1
                 oracle_failed = True
@@ -1159,6 +1172,8 @@ def run(ctx):
         if i % 30 == 0:
             ctx.sample({"features": sorted(feats), "n_priors": len(prog["pool"]), "trips": [s["form"] for s in c["steps"]],
                         "outcomes": ["ok" if "ok" in s else s["exc"] for s in r["steps"]], "paths": r["states"][0]["paths"][:5]})
+    # observable, not a requirement of C08 (the property is about composition): which forms keep the frozen flag
+    ctx.notes["frozen_flag_across_a_trip (form: before -> after: trips)"] = dict(ctx.distribution.get("frozen-flag", {}))
     if os.path.exists(os.path.join(common.COQ, "C08", "Model.vo")):
         hdr = ctx.header(["Common.PyFloat", "Model"]).replace(
             "From PAFC08 Require Import Model.", "From PAFC01 Require Import ModelTree.\nFrom PAFC08 Require Import Model.")
